@@ -393,6 +393,7 @@ var stdUse = map[string]string{
 	"unicode":        "unicode.RangeTable",
 	"strings":        "strings.Builder",
 	"time":           "time.Duration",
+	"weak":           "weak.Pointer[int]",
 }
 
 // Files returns every file of the module as path -> content (symlinks are
